@@ -11,6 +11,7 @@ import hashlib
 import json
 import multiprocessing as mp
 import os
+import re
 import pathlib
 import shutil
 import sys
@@ -248,6 +249,9 @@ def match_finding(findings: typing.List[dict], v: Violation) -> typing.Optional[
             have = v.sig.get(k)
             if isinstance(want, dict) and "$in" in want:
                 if have not in want["$in"]:
+                    ok = False
+            elif isinstance(want, dict) and "$re" in want:
+                if not isinstance(have, str) or re.fullmatch(want["$re"], have) is None:
                     ok = False
             elif have != want:
                 ok = False
